@@ -5,7 +5,10 @@
       the file without restart counter first, then the restart counters numerically, whatever the suffix is,
       however many digits the counter has, whether or not the files are compressed, and whatever the fixed name
       part and the infix contain (the sort key reads the counter behind the LAST ".restart-" of the stem);
-   4. hence in the listing (newest first) a higher restart counter comes before a lower one. *)
+   4. hence in the listing (newest first) a higher restart counter comes before a lower one;
+   5. THE NUMBER INFIX: names  <head>_r<digits>  with the same head are ordered by the NUMBER, however many digits it
+      has (r99999 before r100000), compressed or not; the number is the one behind the LAST "_r" of the main part - or,
+      in a main part without any "_r" (no basename, no discriminant), behind the leading "r". *)
 Require Import FL.Base.Bytes FL.Base.BytesFacts FL.Base.PathName FL.Fs.Fs FL.Names.FileSpec FL.Names.NamesFacts.
 From Coq Require Import ZifyN ZifyNat ZifyBool Permutation Sorted.
 Open Scope N_scope.
@@ -155,18 +158,21 @@ Qed.
 (* ------------------------------------------------------------------------------------------------------ *)
 (* 1c. key_le is a total order on names                                                                    *)
 
-(* key_le compares the triples (main part, restart key, name) lexicographically *)
-Definition key3 (sfx : option bytes) (x : bytes) : bytes * (option (nat * bytes) * bytes) :=
-  (fst (sort_key sfx x), (snd (sort_key sfx x), x)).
-Definition key3_le := lexc beq lex_le (lexc rkey_eq rkey_le lex_le).
+(* key_le compares the tuples (main part, number key, restart key, name) lexicographically *)
+Definition key3 (sfx : option bytes) (x : bytes) : bytes * (option (nat * bytes) * (option (nat * bytes) * bytes)) :=
+  (fst (fst (sort_key sfx x)), (snd (fst (sort_key sfx x)), (snd (sort_key sfx x), x))).
+Definition key3_le := lexc beq lex_le (lexc rkey_eq rkey_le (lexc rkey_eq rkey_le lex_le)).
 
 Lemma key_le_key3 sfx x y : key_le sfx x y = key3_le (key3 sfx x) (key3 sfx y).
 Proof.
-  unfold key_le, key3_le, key3, lexc. destruct (sort_key sfx x) as [mx rx], (sort_key sfx y) as [my ry]. reflexivity.
+  unfold key_le, key3_le, key3, lexc. destruct (sort_key sfx x) as [[mx nx] rx], (sort_key sfx y) as [[my ny] ry]. reflexivity.
 Qed.
 
-Lemma key3_order : order (eqprod beq (eqprod rkey_eq beq)) key3_le.
-Proof. apply lexc_order; [apply lex_le_order|]. apply lexc_order; [apply rkey_le_order | apply lex_le_order]. Qed.
+Lemma key3_order : order (eqprod beq (eqprod rkey_eq (eqprod rkey_eq beq))) key3_le.
+Proof.
+  apply lexc_order; [apply lex_le_order|]. apply lexc_order; [apply rkey_le_order|].
+  apply lexc_order; [apply rkey_le_order | apply lex_le_order].
+Qed.
 
 Theorem key_le_refl sfx x : key_le sfx x x = true.
 Proof. rewrite key_le_key3. apply (o_refl _ _ key3_order). Qed.
@@ -180,7 +186,7 @@ Proof. rewrite !key_le_key3. apply (o_trans _ _ key3_order). Qed.
 Theorem key_le_antisym sfx x y : key_le sfx x y = true -> key_le sfx y x = true -> x = y.
 Proof.
   rewrite !key_le_key3. intros H1 H2. pose proof (o_antisym _ _ key3_order _ _ H1 H2) as E.
-  unfold key3 in E. injection E as _ _ E. exact E.
+  unfold key3 in E. injection E as _ _ _ E. exact E.
 Qed.
 
 (* ------------------------------------------------------------------------------------------------------ *)
@@ -491,8 +497,38 @@ Definition stem_key (stem : bytes) : bytes * option (nat * bytes) :=
                else (stem, None)
   | None => (stem, None)
   end.
-Lemma sort_key_stem sfx n : sort_key sfx n = stem_key (sk_stem sfx n).
-Proof. reflexivity. Qed.
+(* the second split: the number behind the last "_r" of the main part - or, without any "_r", behind a leading "r" *)
+Definition main_split (main : bytes) : option (bytes * bytes) :=
+  match find_last_sub number_tag main with
+  | Some ix => Some (firstn ix main ++ number_tag, skipn (ix + 2) main)
+  | None => match strip_prefix [r_char] main with
+            | Some digits => Some ([r_char], digits)
+            | None => None
+            end
+  end.
+Definition main_key (main : bytes) : bytes * option (nat * bytes) :=
+  match main_split main with
+  | Some (head, digits) => if negb (beq digits []) && forallb is_digit digits
+                           then let d := drop_zeros digits in (head, Some (length d, d))
+                           else (main, None)
+  | None => (main, None)
+  end.
+Definition full_key (stem : bytes) : bytes * option (nat * bytes) * option (nat * bytes) :=
+  (fst (main_key (fst (stem_key stem))), snd (main_key (fst (stem_key stem))), snd (stem_key stem)).
+Lemma sort_key_stem sfx n : sort_key sfx n = full_key (sk_stem sfx n).
+Proof.
+  unfold full_key. change (sort_key sfx n) with
+    (let '(main, restart) := stem_key (sk_stem sfx n) in
+     match main_split main with
+     | Some (head, digits) => if negb (beq digits []) && forallb is_digit digits
+                              then let d := drop_zeros digits in (head, Some (length d, d), restart)
+                              else (main, None, restart)
+     | None => (main, None, restart)
+     end).
+  destruct (stem_key (sk_stem sfx n)) as [m r]. cbn [fst snd]. unfold main_key.
+  destruct (main_split m) as [[h d]|]; [|reflexivity].
+  destruct (negb (beq d []) && forallb is_digit d); reflexivity.
+Qed.
 
 Definition add_gz (g : bool) (n : bytes) : bytes := if g then n ++ dot :: gz_sfx else n.
 
@@ -639,6 +675,141 @@ Proof.
   rewrite forallb_is_digit, Hd, sk_firstn_app. destruct D; [congruence|]. reflexivity.
 Qed.
 
+(* the decomposition  <anything> <non-digit> <digits>  of a string is unique *)
+Lemma sk_all_digits_in s c : all_digits s = true -> In c s -> is_digit c = true.
+Proof.
+  induction s as [|x s IH]; [intros _ []|]. cbn [all_digits]. rewrite andb_true_iff. intros [Hx Hs] [<-|I]; [exact Hx | exact (IH Hs I)].
+Qed.
+
+Lemma sk_last_nondigit (u v a b : bytes) (x y : N) :
+  all_digits a = true -> all_digits b = true -> is_digit x = false -> is_digit y = false ->
+  u ++ x :: a = v ++ y :: b -> x = y.
+Proof.
+  intros Ha Hb Hx Hy. revert v. induction u as [|p u IH]; intros [|q v] H; cbn [app] in H.
+  - injection H as H _. exact H.
+  - injection H as _ H. exfalso. assert (I : In y a) by (rewrite H; apply in_or_app; right; left; reflexivity).
+    rewrite (sk_all_digits_in _ _ Ha I) in Hy. discriminate.
+  - injection H as _ H. exfalso. assert (I : In x b) by (rewrite <- H; apply in_or_app; right; left; reflexivity).
+    rewrite (sk_all_digits_in _ _ Hb I) in Hx. discriminate.
+  - injection H as _ H. apply (IH v H).
+Qed.
+
+Lemma sk_skipn_skipn {A} (l : list A) : forall b a, skipn a (skipn b l) = skipn (b + a) l.
+Proof.
+  induction l as [|x l IH]; intros b a; [rewrite !skipn_nil; reflexivity|].
+  destruct b as [|b]; [reflexivity|]. cbn [skipn Nat.add]. apply IH.
+Qed.
+
+Lemma sk_prefix_split pat s ix : is_prefix pat (skipn ix s) = true -> s = firstn ix s ++ pat ++ skipn (ix + length pat) s.
+Proof.
+  intros E. assert (S : strip_prefix pat (skipn ix s) = Some (skipn (length pat) (skipn ix s))) by (unfold strip_prefix; rewrite E; reflexivity).
+  apply strip_prefix_spec in S. rewrite sk_skipn_skipn in S.
+  rewrite <- (firstn_skipn ix s) at 1. rewrite S at 1. reflexivity.
+Qed.
+
+(* whatever the stem is: either it is its own main part, or it is  <main part> .restart- <digits> *)
+Lemma stem_key_cases' B : stem_key B = (B, None) \/
+  exists X D r, B = X ++ restart_tag ++ D /\ D <> [] /\ all_digits D = true /\ stem_key B = (X, Some r).
+Proof.
+  unfold stem_key. destruct (find_last_sub restart_tag B) as [ix|] eqn:E; [|left; reflexivity]. cbv zeta.
+  destruct (negb (beq (skipn (ix + 9) B) []) && forallb is_digit (skipn (ix + 9) B)) eqn:C; [right | left; reflexivity].
+  apply andb_prop in C. destruct C as [C1 C2]. rewrite forallb_is_digit in C2.
+  exists (firstn ix B), (skipn (ix + 9) B). eexists. split; [|split; [|split; [exact C2 | reflexivity]]].
+  - apply find_last_sub_prefix in E. exact (sk_prefix_split restart_tag B ix E).
+  - intros Z. rewrite Z in C1. discriminate C1.
+Qed.
+
+(* a stem that ends with  <non-digit other than "-"> <digits>  has no restart counter *)
+Lemma stem_key_tail B u x D : B = u ++ x :: D -> all_digits D = true -> is_digit x = false -> x <> 45 -> stem_key B = (B, None).
+Proof.
+  intros HB HD Hx Hne. destruct (stem_key_cases' B) as [E|(X & D' & r & HB' & _ & HD' & _)]; [exact E | exfalso].
+  rewrite HB in HB'. change (restart_tag ++ D') with ([46; 114; 101; 115; 116; 97; 114; 116] ++ 45 :: D') in HB'. rewrite app_assoc in HB'.
+  exact (Hne (sk_last_nondigit _ _ _ _ x 45 HD HD' Hx eq_refl HB')).
+Qed.
+
+(* the main part: either it is its own head, or it is  <head ending with "r"> <digits> *)
+Lemma main_split_spec B h E : main_split B = Some (h, E) -> B = h ++ E /\ exists h0, h = h0 ++ [r_char].
+Proof.
+  unfold main_split. destruct (find_last_sub number_tag B) as [ix|] eqn:F.
+  - intros H. injection H as <- <-. apply find_last_sub_prefix in F. split.
+    + rewrite <- app_assoc. exact (sk_prefix_split number_tag B ix F).
+    + exists (firstn ix B ++ [uscore]). rewrite <- app_assoc. reflexivity.
+  - destruct (strip_prefix [r_char] B) as [d|] eqn:P; [|discriminate]. intros H. injection H as <- <-.
+    apply strip_prefix_spec in P. split; [exact P | exists []; reflexivity].
+Qed.
+
+Lemma main_key_cases B : main_key B = (B, None) \/
+  exists h0 E, B = (h0 ++ [r_char]) ++ E /\ E <> [] /\ all_digits E = true /\
+               main_key B = (h0 ++ [r_char], Some (length (drop_zeros E), drop_zeros E)).
+Proof.
+  unfold main_key. destruct (main_split B) as [[h E]|] eqn:S; [|left; reflexivity].
+  destruct (negb (beq E []) && forallb is_digit E) eqn:C; [right | left; reflexivity].
+  apply andb_prop in C. destruct C as [C1 C2]. rewrite forallb_is_digit in C2.
+  destruct (main_split_spec B h E S) as [HB [h0 ->]].
+  exists h0, E. split; [exact HB|]. split; [|split; [exact C2 | reflexivity]].
+  intros Z. rewrite Z in C1. discriminate C1.
+Qed.
+
+(* a main part that ends with  <non-digit other than "r"> <digits>  has no number *)
+Lemma main_key_tail B u x D : B = u ++ x :: D -> all_digits D = true -> is_digit x = false -> x <> r_char -> main_key B = (B, None).
+Proof.
+  intros HB HD Hx Hne. destruct (main_key_cases B) as [E|(h0 & D' & HB' & _ & HD' & _)]; [exact E | exfalso].
+  rewrite HB, <- app_assoc in HB'.
+  exact (Hne (sk_last_nondigit _ _ _ _ x r_char HD HD' Hx eq_refl HB')).
+Qed.
+
+(* the head is a prefix of the main part *)
+Lemma main_key_head B : exists t, B = fst (main_key B) ++ t.
+Proof.
+  destruct (main_key_cases B) as [E|(h0 & D & HB & _ & _ & E)]; rewrite E; cbn [fst].
+  - exists []. rewrite app_nil_r. reflexivity.
+  - exists D. exact HB.
+Qed.
+
+(* "_r" is not found in a part without "_" *)
+Lemma sk_no_uscore_no_tag s : ~ In uscore s -> find_sub number_tag s = None.
+Proof.
+  induction s as [|c s IH]; intros H; [reflexivity|].
+  assert (Hc : (uscore =? c) = false) by (apply N.eqb_neq; intros E; apply H; left; symmetry; exact E).
+  cbn [find_sub]. unfold number_tag at 1. cbn [is_prefix]. change 95 with uscore. rewrite Hc. cbn [andb].
+  rewrite IH; [reflexivity | intros I; apply H; right; exact I].
+Qed.
+
+Lemma all_digits_no_uscore D : all_digits D = true -> ~ In uscore D.
+Proof. intros HD I. pose proof (sk_all_digits_in _ _ HD I) as X. discriminate X. Qed.
+
+(* no hypothesis on F: the number is read behind the LAST "_r" *)
+Lemma main_key_number F D : D <> [] -> all_digits D = true ->
+  main_key (F ++ number_tag ++ D) = (F ++ number_tag, Some (length (drop_zeros D), drop_zeros D)).
+Proof.
+  intros Hne Hd. unfold main_key, main_split.
+  assert (E : find_last_sub number_tag (F ++ number_tag ++ D) = Some (length F)).
+  { rewrite (find_last_sub_skip number_tag F (number_tag ++ D) O); [f_equal; lia|].
+    change (number_tag ++ D) with (uscore :: r_char :: D). apply find_last_sub_here; [reflexivity|].
+    apply sk_no_uscore_no_tag. intros [X|X]; [discriminate X | exact (all_digits_no_uscore D Hd X)]. }
+  rewrite E. cbv beta iota. rewrite sk_skipn_app. change (skipn 2 (number_tag ++ D)) with D.
+  rewrite forallb_is_digit, Hd, sk_firstn_app. destruct D; [congruence|]. reflexivity.
+Qed.
+
+(* a main part without any "_r" that is  r <digits>  (no basename, no discriminant): the number behind the leading "r" *)
+Lemma main_key_number_nil D : D <> [] -> all_digits D = true ->
+  main_key (r_char :: D) = ([r_char], Some (length (drop_zeros D), drop_zeros D)).
+Proof.
+  intros Hne Hd. unfold main_key, main_split.
+  rewrite (proj2 (find_last_sub_none number_tag (r_char :: D))).
+  - change (strip_prefix [r_char] (r_char :: D)) with (Some D). cbv beta iota.
+    rewrite forallb_is_digit, Hd. destruct D; [congruence|]. reflexivity.
+  - apply sk_no_uscore_no_tag. intros [X|X]; [discriminate X | exact (all_digits_no_uscore D Hd X)].
+Qed.
+
+(* both: behind the fixed name part and its "_" - if there is one - the infix  r <digits> *)
+Lemma main_key_number_under fixed D : D <> [] -> all_digits D = true ->
+  main_key (under fixed ++ r_char :: D) = (under fixed ++ [r_char], Some (length (drop_zeros D), drop_zeros D)).
+Proof.
+  intros Hne Hd. destruct fixed as [|c fx]; [exact (main_key_number_nil D Hne Hd)|].
+  unfold under. rewrite <- !app_assoc. exact (main_key_number (c :: fx) D Hne Hd).
+Qed.
+
 (* ------------------------------------------------------------------------------------------------------ *)
 (* 3c. THE NAMING THEOREM                                                                                    *)
 
@@ -668,45 +839,59 @@ Proof.
   - intros _. rewrite app_assoc. apply sk_gz_digits; [apply restart_digits_nonempty | apply restart_digits_all].
 Qed.
 
+(* the key of a stem without restart counter *)
+Definition plain_key (B : bytes) : bytes * option (nat * bytes) * option (nat * bytes) :=
+  (fst (main_key B), snd (main_key B), None).
+
 Lemma sort_key_plain_name sp fixed i g : i <> [] ->
   contains restart_tag (under fixed ++ i) = false ->
   strip_suffix (dot :: gz_sfx) (as_name sp fixed (Some i)) = None ->
-  sort_key (fsfx sp) (add_gz g (as_name sp fixed (Some i))) = (under fixed ++ i, None).
+  sort_key (fsfx sp) (add_gz g (as_name sp fixed (Some i))) = plain_key (under fixed ++ i).
 Proof.
   intros Hne Hc Hgz. rewrite (sk_as_name_some _ _ _ Hne) in *.
-  rewrite sort_key_stem, (sk_stem_with_suffix _ _ _ Hgz). apply stem_key_plain, Hc.
+  rewrite sort_key_stem, (sk_stem_with_suffix _ _ _ Hgz). unfold full_key, plain_key. rewrite (stem_key_plain _ Hc). reflexivity.
 Qed.
 
-(* without the hypothesis on ".restart-": the main part is the stem or a proper prefix of it *)
+(* without the hypothesis on ".restart-": the stem is its own main part, or it is  <main part> .restart- <digits> *)
 Lemma sort_key_plain_name_cases sp fixed i g : i <> [] ->
   strip_suffix (dot :: gz_sfx) (as_name sp fixed (Some i)) = None ->
   let n0 := add_gz g (as_name sp fixed (Some i)) in
-  sort_key (fsfx sp) n0 = (under fixed ++ i, None)
-  \/ exists ix r, (ix < length (under fixed ++ i))%nat /\ sort_key (fsfx sp) n0 = (firstn ix (under fixed ++ i), Some r).
+  sort_key (fsfx sp) n0 = plain_key (under fixed ++ i)
+  \/ exists X D r, under fixed ++ i = X ++ restart_tag ++ D /\ D <> [] /\ all_digits D = true /\
+                   sort_key (fsfx sp) n0 = (fst (main_key X), snd (main_key X), Some r).
 Proof.
   intros Hne Hgz n0. subst n0. rewrite (sk_as_name_some _ _ _ Hne) in *.
-  rewrite sort_key_stem, (sk_stem_with_suffix _ _ _ Hgz). apply stem_key_cases.
+  rewrite sort_key_stem, (sk_stem_with_suffix _ _ _ Hgz). unfold full_key, plain_key.
+  destruct (stem_key_cases' (under fixed ++ i)) as [E|(X & D & r & HB & HD1 & HD2 & E)]; rewrite E; cbn [fst snd].
+  - left. reflexivity.
+  - right. exists X, D, r. repeat split; assumption.
 Qed.
 
 (* the fixed name part and the infix may contain ".restart-" themselves: the counter is the one behind the last one *)
 Lemma sort_key_restart_name sp fixed i j k g : j <> [] ->
   strip_suffix (dot :: gz_sfx) (as_name sp fixed (Some j)) = None ->
   sort_key (fsfx sp) (add_gz g (as_name sp fixed (Some (restart_infix i k))))
-  = (under fixed ++ i, Some (length (drop_zeros (restart_digits k)), drop_zeros (restart_digits k))).
+  = (fst (main_key (under fixed ++ i)), snd (main_key (under fixed ++ i)),
+     Some (length (drop_zeros (restart_digits k)), drop_zeros (restart_digits k))).
 Proof.
   intros Hne Hgz. rewrite as_name_restart.
   rewrite sort_key_stem, (sk_stem_with_suffix _ _ _ (with_suffix_no_gz_restart sp fixed i j k Hne Hgz)).
-  apply stem_key_restart; [apply restart_digits_nonempty | apply restart_digits_all].
+  unfold full_key. rewrite stem_key_restart; [reflexivity | apply restart_digits_nonempty | apply restart_digits_all].
 Qed.
 
-(* names with the same main part and different restart keys are ordered by the restart keys *)
-Lemma key_le_by_rkey sfx x y m rx ry :
-  sort_key sfx x = (m, rx) -> sort_key sfx y = (m, ry) -> rkey_eq rx ry = false -> key_le sfx x y = rkey_le rx ry.
+(* names with the same main part and number key and different restart keys are ordered by the restart keys *)
+Lemma key_le_by_rkey sfx x y m n rx ry :
+  sort_key sfx x = (m, n, rx) -> sort_key sfx y = (m, n, ry) -> rkey_eq rx ry = false -> key_le sfx x y = rkey_le rx ry.
+Proof. intros Ex Ey Hne. unfold key_le. rewrite Ex, Ey, beq_refl, (proj2 (rkey_eq_iff n n) eq_refl), Hne. reflexivity. Qed.
+
+(* names with the same main part and different number keys are ordered by the number keys *)
+Lemma key_le_by_nkey sfx x y m nx ny rx ry :
+  sort_key sfx x = (m, nx, rx) -> sort_key sfx y = (m, ny, ry) -> rkey_eq nx ny = false -> key_le sfx x y = rkey_le nx ny.
 Proof. intros Ex Ey Hne. unfold key_le. rewrite Ex, Ey, beq_refl, Hne. reflexivity. Qed.
 
 (* names with different main parts are ordered by the main parts *)
-Lemma key_le_by_main sfx x y mx my rx ry :
-  sort_key sfx x = (mx, rx) -> sort_key sfx y = (my, ry) -> mx <> my -> key_le sfx x y = lex_le mx my.
+Lemma key_le_by_main sfx x y mx my nx ny rx ry :
+  sort_key sfx x = (mx, nx, rx) -> sort_key sfx y = (my, ny, ry) -> mx <> my -> key_le sfx x y = lex_le mx my.
 Proof. intros Ex Ey Hne. unfold key_le. rewrite Ex, Ey, (beq_neq _ _ Hne). reflexivity. Qed.
 
 (* a proper prefix is smaller *)
@@ -720,6 +905,12 @@ Qed.
 Lemma firstn_proper (B : bytes) ix : (ix < length B)%nat -> firstn ix B <> B.
 Proof. intros H E. apply (f_equal (@length N)) in E. rewrite firstn_length in E. lia. Qed.
 
+Lemma lex_lt_app_proper (h t : bytes) : t <> [] -> lex_lt h (h ++ t) = true /\ h <> h ++ t.
+Proof.
+  intros Ht. assert (L : (length h < length (h ++ t))%nat) by (rewrite app_length; destruct t; [congruence | cbn [length]; lia]).
+  rewrite <- (sk_firstn_app h t) at 1 3. split; [apply lex_lt_firstn, L | apply firstn_proper, L].
+Qed.
+
 Lemma rkey_eq_sym a b : rkey_eq a b = rkey_eq b a.
 Proof.
   destruct (rkey_eq a b) eqn:E1, (rkey_eq b a) eqn:E2; try reflexivity.
@@ -730,7 +921,8 @@ Qed.
 (* (a)+(c): the file without restart counter sorts strictly before every file with one; g0, g1 say whether
    the respective file is compressed (carries an additional ".gz").  No hypothesis on ".restart-" in the fixed
    name part or in the infix: if the stem under fixed ++ i itself ends with ".restart-<digits>", the main part of
-   the plain name is a proper prefix of the main part of the other one, and the plain name still comes first *)
+   the plain name is a proper prefix of the main part of the other one (which, ending with "-<digits>", carries no
+   number), and the plain name still comes first *)
 Theorem naming_plain_before_restart : forall sp sfx fixed i k (g0 g1 : bool),
   fsfx sp = sfx -> i <> [] ->
   strip_suffix (dot :: gz_sfx) (as_name sp fixed (Some i)) = None ->
@@ -740,13 +932,21 @@ Theorem naming_plain_before_restart : forall sp sfx fixed i k (g0 g1 : bool),
 Proof.
   intros sp sfx fixed i k g0 g1 <- Hne Hgz n0 n1. subst n0 n1.
   pose proof (sort_key_restart_name sp fixed i i k g1 Hne Hgz) as E1.
-  destruct (sort_key_plain_name_cases sp fixed i g0 Hne Hgz) as [E0|[ix [r [Hix E0]]]].
-  - split.
-    + rewrite (key_le_by_rkey _ _ _ _ _ _ E0 E1); reflexivity.
-    + rewrite (key_le_by_rkey _ _ _ _ _ _ E1 E0); reflexivity.
-  - pose proof (firstn_proper _ _ Hix) as Hd. pose proof (lex_lt_firstn _ _ Hix) as Hl. split.
-    + rewrite (key_le_by_main _ _ _ _ _ _ _ E0 E1 Hd). unfold lex_le. rewrite (lex_lt_asym _ _ Hl). reflexivity.
-    + rewrite (key_le_by_main _ _ _ _ _ _ _ E1 E0 (fun E => Hd (eq_sym E))). unfold lex_le. rewrite Hl. reflexivity.
+  destruct (sort_key_plain_name_cases sp fixed i g0 Hne Hgz) as [E0|(X & D & r & HB & HD1 & HD2 & E0)].
+  - unfold plain_key in E0. split.
+    + rewrite (key_le_by_rkey _ _ _ _ _ _ _ E0 E1); reflexivity.
+    + rewrite (key_le_by_rkey _ _ _ _ _ _ _ E1 E0); reflexivity.
+  - assert (EB : main_key (under fixed ++ i) = (under fixed ++ i, None)).
+    { apply (main_key_tail _ (X ++ [46; 114; 101; 115; 116; 97; 114; 116]) 45 D); [|exact HD2 | reflexivity | discriminate].
+      rewrite HB, <- app_assoc. reflexivity. }
+    rewrite EB in E1. cbn [fst snd] in E1.
+    destruct (main_key_head X) as [t Ht].
+    assert (HP : under fixed ++ i = fst (main_key X) ++ (t ++ restart_tag ++ D)) by (rewrite app_assoc, <- Ht; exact HB).
+    destruct (lex_lt_app_proper (fst (main_key X)) (t ++ restart_tag ++ D)) as [Hl Hd].
+    { intros Z. apply app_eq_nil in Z. destruct Z as [_ Z]. discriminate Z. }
+    rewrite <- HP in Hl, Hd. split.
+    + rewrite (key_le_by_main _ _ _ _ _ _ _ _ _ E0 E1 Hd). unfold lex_le. rewrite (lex_lt_asym _ _ Hl). reflexivity.
+    + rewrite (key_le_by_main _ _ _ _ _ _ _ _ _ E1 E0 (fun E => Hd (eq_sym E))). unfold lex_le. rewrite Hl. reflexivity.
 Qed.
 
 (* (b)+(c): restart counters sort numerically, strictly.  No hypothesis on the number of digits, none on ".restart-"
@@ -766,8 +966,8 @@ Proof.
   pose proof (sort_key_restart_name sp fixed i j k2 g2 Hne Hgz) as E2.
   destruct (rkey_restart_lt k1 k2 Hlt) as [L12 [L21 Q]].
   split.
-  - rewrite (key_le_by_rkey _ _ _ _ _ _ E1 E2 Q). exact L12.
-  - rewrite (key_le_by_rkey _ _ _ _ _ _ E2 E1); [exact L21|]. rewrite rkey_eq_sym. exact Q.
+  - rewrite (key_le_by_rkey _ _ _ _ _ _ _ E1 E2 Q). exact L12.
+  - rewrite (key_le_by_rkey _ _ _ _ _ _ _ E2 E1); [exact L21|]. rewrite rkey_eq_sym. exact Q.
 Qed.
 
 (* the uncompressed instances, as in the task statement *)
@@ -877,9 +1077,9 @@ Example ex_tag_in_basename :
   contains restart_tag (under ex_fixed7 ++ ex_infix) = true /\
   n1 = bs "a.restart-7_r2024-02-29_23-59-58.restart-9999.trc"%string /\
   n2 = bs "a.restart-7_r2024-02-29_23-59-58.restart-10000.trc"%string /\
-  sort_key (Some (bs "trc"%string)) n1 = (bs "a.restart-7_r2024-02-29_23-59-58"%string, Some (4%nat, bs "9999"%string)) /\
-  sort_key (Some (bs "trc"%string)) n2 = (bs "a.restart-7_r2024-02-29_23-59-58"%string, Some (5%nat, bs "10000"%string)) /\
-  sort_key (Some (bs "trc"%string)) n0 = (bs "a.restart-7_r2024-02-29_23-59-58"%string, None) /\
+  sort_key (Some (bs "trc"%string)) n1 = (bs "a.restart-7_r2024-02-29_23-59-58"%string, None, Some (4%nat, bs "9999"%string)) /\
+  sort_key (Some (bs "trc"%string)) n2 = (bs "a.restart-7_r2024-02-29_23-59-58"%string, None, Some (5%nat, bs "10000"%string)) /\
+  sort_key (Some (bs "trc"%string)) n0 = (bs "a.restart-7_r2024-02-29_23-59-58"%string, None, None) /\
   (key_le (Some (bs "trc"%string)) n0 n1 && negb (key_le (Some (bs "trc"%string)) n1 n0) &&
    key_le (Some (bs "trc"%string)) n1 n2 && negb (key_le (Some (bs "trc"%string)) n2 n1) &&
    key_le (Some (bs "trc"%string)) (gz n1) n2 && negb (key_le (Some (bs "trc"%string)) n2 (gz n1)) &&
@@ -901,8 +1101,8 @@ Example ex_tag_at_end_of_infix :
   let i := bs "x.restart-3"%string in
   let n0 := as_name ex_sp ex_fixed (Some i) in
   let n1 := as_name ex_sp ex_fixed (Some (restart_infix i 0)) in
-  sort_key (Some (bs "trc"%string)) n0 = (bs "a_x"%string, Some (1%nat, bs "3"%string)) /\
-  sort_key (Some (bs "trc"%string)) n1 = (bs "a_x.restart-3"%string, Some (0%nat, [])) /\
+  sort_key (Some (bs "trc"%string)) n0 = (bs "a_x"%string, None, Some (1%nat, bs "3"%string)) /\
+  sort_key (Some (bs "trc"%string)) n1 = (bs "a_x.restart-3"%string, None, Some (0%nat, [])) /\
   key_le (Some (bs "trc"%string)) n0 n1 = true /\ key_le (Some (bs "trc"%string)) n1 n0 = false.
 Proof. vm_compute. repeat split; reflexivity. Qed.
 
@@ -934,3 +1134,190 @@ Print Assumptions related_files_restart_order.
 Print Assumptions drop_zeros_restart_digits.
 Print Assumptions dec_length_mono.
 Print Assumptions dec_lex_le_iff.
+
+(* ------------------------------------------------------------------------------------------------------ *)
+(* 5. THE NUMBER INFIX: the files  <fixed>_r<number>  are ordered by the number, however many digits it has  *)
+
+(* the digits that the model writes for a number infix, and what the sort key keeps of them *)
+Definition number_digits (k : N) : bytes := pad_left 5 48 (dec k).
+
+Lemma number_digits_all k : all_digits (number_digits k) = true.
+Proof. unfold number_digits, pad_left. rewrite all_digits_app, all_digits_repeat0, dec_all_digits. reflexivity. Qed.
+
+Lemma number_digits_nonempty k : number_digits k <> [].
+Proof.
+  unfold number_digits, pad_left. intros E. apply app_eq_nil in E. destruct E as [_ E]. exact (dec_nonempty k E).
+Qed.
+
+Lemma number_digits_value k : dec_value (drop_zeros (number_digits k)) = k.
+Proof. unfold number_digits, pad_left. rewrite drop_zeros_value, dec_value_zeros. apply dec_value_dec. Qed.
+
+Lemma number_infix_digits k : number_infix k = r_char :: number_digits k.
+Proof. reflexivity. Qed.
+
+(* the hypothesis on ".gz" (given for any non-empty infix j) carries over to the names that end with digits *)
+Lemma with_suffix_no_gz_digits sp fixed j X D : j <> [] ->
+  strip_suffix (dot :: gz_sfx) (as_name sp fixed (Some j)) = None ->
+  D <> [] -> all_digits D = true ->
+  strip_suffix (dot :: gz_sfx) (with_suffix sp (X ++ D)) = None.
+Proof.
+  intros Hne. rewrite (sk_as_name_some _ _ _ Hne). unfold with_suffix. destruct (fsfx sp) as [s|].
+  - rewrite !sk_strip_suffix_none, !sk_gz_app. auto.
+  - intros _ HD1 HD2. apply sk_gz_digits; assumption.
+Qed.
+
+(* the key of a number name: the part up to and including the "r" of the infix, the number without leading zeros, no
+   restart counter - with a fixed name part (the "r" is the one of the last "_r") or without (the leading "r") *)
+Lemma sort_key_number_name sp fixed j k g : j <> [] ->
+  strip_suffix (dot :: gz_sfx) (as_name sp fixed (Some j)) = None ->
+  sort_key (fsfx sp) (add_gz g (as_name sp fixed (Some (number_infix k))))
+  = (under fixed ++ [r_char], Some (length (drop_zeros (number_digits k)), drop_zeros (number_digits k)), None).
+Proof.
+  intros Hne Hgz. rewrite (sk_as_name_some _ _ _ (number_infix_nonempty k)), number_infix_digits.
+  change (under fixed ++ r_char :: number_digits k) with (under fixed ++ [r_char] ++ number_digits k). rewrite app_assoc.
+  rewrite sort_key_stem, (sk_stem_with_suffix _ _ _ (with_suffix_no_gz_digits sp fixed j _ _ Hne Hgz (number_digits_nonempty k) (number_digits_all k))).
+  unfold full_key. rewrite <- app_assoc. change ([r_char] ++ number_digits k) with (r_char :: number_digits k).
+  rewrite (stem_key_tail _ (under fixed) r_char (number_digits k)); [| reflexivity | apply number_digits_all | reflexivity | discriminate].
+  cbn [fst snd]. rewrite (main_key_number_under fixed _ (number_digits_nonempty k) (number_digits_all k)). reflexivity.
+Qed.
+
+(* THE NUMBER THEOREM: numbers sort numerically, strictly - no hypothesis on the number of digits, none on the fixed
+   name part (the number is read behind the LAST "_r"; with an empty fixed name part behind the leading "r");
+   g1, g2: compressed or not *)
+Theorem naming_number_order : forall sp sfx fixed j k1 k2 (g1 g2 : bool),
+  fsfx sp = sfx -> j <> [] ->
+  strip_suffix (dot :: gz_sfx) (as_name sp fixed (Some j)) = None ->
+  k1 < k2 ->
+  let n1 := add_gz g1 (as_name sp fixed (Some (number_infix k1))) in
+  let n2 := add_gz g2 (as_name sp fixed (Some (number_infix k2))) in
+  key_le sfx n1 n2 = true /\ key_le sfx n2 n1 = false.
+Proof.
+  intros sp sfx fixed j k1 k2 g1 g2 <- Hne Hgz Hlt n1 n2. subst n1 n2.
+  pose proof (sort_key_number_name sp fixed j k1 g1 Hne Hgz) as E1.
+  pose proof (sort_key_number_name sp fixed j k2 g2 Hne Hgz) as E2.
+  destruct (rkey_digits_lt (drop_zeros (number_digits k1)) (drop_zeros (number_digits k2))) as [L12 [L21 Q]];
+    try (apply drop_zeros_all_digits, number_digits_all); try (intros r; apply drop_zeros_head);
+    [rewrite !number_digits_value; exact Hlt|].
+  split.
+  - rewrite (key_le_by_nkey _ _ _ _ _ _ _ _ E1 E2 Q). exact L12.
+  - rewrite (key_le_by_nkey _ _ _ _ _ _ _ _ E2 E1); [exact L21|]. rewrite rkey_eq_sym. exact Q.
+Qed.
+
+(* in the listing (newest first) the higher number comes first *)
+Theorem listing_number_order : forall sp sfx fixed j k1 k2 (g1 g2 : bool) l,
+  fsfx sp = sfx -> j <> [] ->
+  strip_suffix (dot :: gz_sfx) (as_name sp fixed (Some j)) = None ->
+  k1 < k2 ->
+  let n1 := add_gz g1 (as_name sp fixed (Some (number_infix k1))) in
+  let n2 := add_gz g2 (as_name sp fixed (Some (number_infix k2))) in
+  In n1 l -> In n2 l ->
+  exists l1 l2 l3, rev (sort_by_key sfx l) = l1 ++ n2 :: l2 ++ n1 :: l3.
+Proof.
+  intros sp sfx fixed j k1 k2 g1 g2 l Hs Hne Hgz Hlt n1 n2 H1 H2.
+  apply listing_order; [exact H1 | exact H2 |].
+  exact (proj2 (naming_number_order sp sfx fixed j k1 k2 g1 g2 Hs Hne Hgz Hlt)).
+Qed.
+
+Corollary related_files_number_order : forall f sp sfx fixed j k1 k2 (g1 g2 : bool),
+  fsfx sp = sfx -> j <> [] ->
+  strip_suffix (dot :: gz_sfx) (as_name sp fixed (Some j)) = None ->
+  k1 < k2 ->
+  let n1 := add_gz g1 (as_name sp fixed (Some (number_infix k1))) in
+  let n2 := add_gz g2 (as_name sp fixed (Some (number_infix k2))) in
+  In n1 (related_files f sfx fixed) -> In n2 (related_files f sfx fixed) ->
+  exists l1 l2 l3, related_files f sfx fixed = l1 ++ n2 :: l2 ++ n1 :: l3.
+Proof.
+  intros f sp sfx fixed j k1 k2 g1 g2 Hs Hne Hgz Hlt n1 n2. unfold related_files.
+  rewrite <- !in_rev, !In_sort_by_key. apply listing_number_order with (j := j); assumption.
+Qed.
+
+Print Assumptions naming_number_order.
+Print Assumptions listing_number_order.
+Print Assumptions related_files_number_order.
+
+(* --- examples --- *)
+Definition ex_lsp : file_spec := {| fbase := bs "a"%string; fdisc := None; fts := false; fsfx := Some (bs "log"%string) |}.
+Definition ex_log : option bytes := Some (bs "log"%string).
+
+(* the hypotheses are satisfiable and the conclusion computes: 99999 (five digits) and 100000 (six digits) *)
+Example ex_number_thm :
+  as_name ex_lsp (bs "a"%string) (Some (number_infix 99999)) = bs "a_r99999.log"%string /\
+  as_name ex_lsp (bs "a"%string) (Some (number_infix 100000)) = bs "a_r100000.log"%string /\
+  key_le ex_log (bs "a_r99999.log"%string) (bs "a_r100000.log.gz"%string) = true /\
+  key_le ex_log (bs "a_r100000.log.gz"%string) (bs "a_r99999.log"%string) = false /\
+  (* the plain byte order would put 100000 first *)
+  lex_le (bs "a_r100000.log.gz"%string) (bs "a_r99999.log"%string) = true.
+Proof.
+  split; [reflexivity|]. split; [reflexivity|].
+  destruct (naming_number_order ex_lsp ex_log (bs "a"%string) (number_infix 0) 99999 100000 false true) as [H1 H2];
+    [reflexivity | discriminate | vm_compute; reflexivity | lia |].
+  split; [exact H1|]. split; [exact H2|]. vm_compute. reflexivity.
+Qed.
+
+(* a basename that contains "_r12": the name sorts by its LAST "_r" part *)
+Example ex_last_number_tag :
+  sort_key ex_log (bs "x_r12_r00005.log"%string) = (bs "x_r12_r"%string, Some (1%nat, bs "5"%string), None) /\
+  sort_key ex_log (bs "x_r12_r100000.log.gz"%string) = (bs "x_r12_r"%string, Some (6%nat, bs "100000"%string), None) /\
+  sort_key ex_log (bs "x_r12_rCURRENT.log"%string) = (bs "x_r12_rCURRENT"%string, None, None) /\
+  sort_key ex_log (bs "x_r12.log"%string) = (bs "x_r"%string, Some (2%nat, bs "12"%string), None) /\
+  rev (sort_by_key ex_log [bs "x_r12_r00005.log"%string; bs "x_r12_r100000.log.gz"%string; bs "x_r12_r99999.log"%string;
+                           bs "x_r12_rCURRENT.log"%string; bs "x_r12_r00010.log"%string])
+  = [bs "x_r12_rCURRENT.log"%string; bs "x_r12_r100000.log.gz"%string; bs "x_r12_r99999.log"%string;
+     bs "x_r12_r00010.log"%string; bs "x_r12_r00005.log"%string].
+Proof. vm_compute. repeat split; reflexivity. Qed.
+
+(* the listing of a directory, newest first: rCURRENT, then the numbers descending, compressed or not *)
+Definition ex_dir (l : list bytes) : fs := fold_left (fun f n => fst (create_file f n 0 0%Z)) l empty_fs.
+
+Example ex_related_files_numbers :
+  related_files (ex_dir [bs "a_r99999.log"%string; bs "a_r100000.log"%string; bs "a_r100001.log"%string;
+                         bs "a_rCURRENT.log"%string; bs "a_r00007.log.gz"%string; bs "b_r00001.log"%string]) ex_log (bs "a"%string)
+  = [bs "a_rCURRENT.log"%string; bs "a_r100001.log"%string; bs "a_r100000.log"%string; bs "a_r99999.log"%string;
+     bs "a_r00007.log.gz"%string].
+Proof. vm_compute. reflexivity. Qed.
+
+(* time-stamp names and restart counters: the order is what it was (nothing behind their last "_r" is a number) *)
+Example ex_related_files_timestamps :
+  sort_key ex_log (bs "a_r2024-02-29_23-59-58.restart-0001.log"%string)
+  = (bs "a_r2024-02-29_23-59-58"%string, None, Some (1%nat, bs "1"%string)) /\
+  related_files (ex_dir [bs "a_r2024-02-29_23-59-58.restart-10000.log"%string; bs "a_r2024-02-29_23-59-58.log.gz"%string;
+                         bs "a_r2024-02-29_23-59-58.restart-9999.log.gz"%string; bs "a_rCURRENT.log"%string;
+                         bs "a_r2024-02-29_23-59-57.restart-0000.log"%string; bs "a_r2024-03-01_00-00-00.log"%string;
+                         bs "a_r2024-02-29_23-59-58.restart-0000.log"%string]) ex_log (bs "a"%string)
+  = [bs "a_rCURRENT.log"%string; bs "a_r2024-03-01_00-00-00.log"%string;
+     bs "a_r2024-02-29_23-59-58.restart-10000.log"%string; bs "a_r2024-02-29_23-59-58.restart-9999.log.gz"%string;
+     bs "a_r2024-02-29_23-59-58.restart-0000.log"%string; bs "a_r2024-02-29_23-59-58.log.gz"%string;
+     bs "a_r2024-02-29_23-59-57.restart-0000.log"%string].
+Proof. vm_compute. split; reflexivity. Qed.
+
+(* AN EMPTY FIXED NAME PART (basename suppressed, no discriminant, no start time): the number names are
+   r<digits>.<suffix>  without "_"; there is no "_r" in them, and the key reads the number behind the leading "r":
+   "r100000" sorts after "r99999" and is listed before it.  (This was the counterexample ex_empty_fixed_unrepaired
+   to the first version of the repair, which split at "_r" only.) *)
+Definition ex_nsp : file_spec := {| fbase := []; fdisc := None; fts := false; fsfx := Some (bs "log"%string) |}.
+Example ex_empty_fixed_repaired :
+  fixed_name_part ex_nsp [] = [] /\
+  as_name ex_nsp [] (Some (number_infix 99999)) = bs "r99999.log"%string /\
+  as_name ex_nsp [] (Some (number_infix 100000)) = bs "r100000.log"%string /\
+  sort_key ex_log (bs "r100000.log"%string) = (bs "r"%string, Some (6%nat, bs "100000"%string), None) /\
+  key_le ex_log (bs "r100000.log"%string) (bs "r99999.log"%string) = false /\
+  key_le ex_log (bs "r99999.log"%string) (bs "r100000.log"%string) = true /\
+  related_files (ex_dir [bs "r99999.log"%string; bs "r100000.log"%string; bs "rCURRENT.log"%string; bs "r00007.log.gz"%string]) ex_log []
+  = [bs "rCURRENT.log"%string; bs "r100000.log"%string; bs "r99999.log"%string; bs "r00007.log.gz"%string].
+Proof. vm_compute. repeat split; reflexivity. Qed.
+
+(* the same from the theorem, which has no hypothesis on the fixed name part *)
+Example ex_empty_fixed_thm :
+  key_le ex_log (bs "r99999.log"%string) (bs "r100000.log.gz"%string) = true /\
+  key_le ex_log (bs "r100000.log.gz"%string) (bs "r99999.log"%string) = false.
+Proof.
+  exact (naming_number_order ex_nsp ex_log [] (number_infix 0) 99999 100000 false true eq_refl ltac:(discriminate) eq_refl ltac:(lia)).
+Qed.
+
+(* the leading "r" counts only when there is no "_r" at all, and only in front of digits: other names are as they were *)
+Example ex_leading_r_only :
+  sort_key ex_log (bs "r12_rCURRENT.log"%string) = (bs "r12_rCURRENT"%string, None, None) /\
+  sort_key ex_log (bs "rCURRENT.log"%string) = (bs "rCURRENT"%string, None, None) /\
+  sort_key ex_log (bs "r2024-02-29_23-59-58.restart-0001.log"%string) = (bs "r2024-02-29_23-59-58"%string, None, Some (1%nat, bs "1"%string)) /\
+  sort_key ex_log (bs "xr00005.log"%string) = (bs "xr00005"%string, None, None).
+Proof. vm_compute. repeat split; reflexivity. Qed.
